@@ -135,20 +135,20 @@ Print Assumptions C11_from_engine.
 
 (** * Layout non-interference of the parser-engine interpreter (Pem)
 
-    [lleft bs] / [lright bs]: two token lists aligned block by block - a significant token (code or
-    meta) kept as it is, or a non-empty run of gap tokens (whitespace, newline, comment) replaced by
-    another non-empty run whose last token is whitespace/newline iff the original's is; every gap
-    token invisible to the graph ([gap_ok_b]: no first-token hint, typed parser or node kind
-    mentions it).  [Rb bs]: corresponding positions (block boundaries).  For every graph with
+    [lleft bs] / [lright bs]: two token lists aligned block by block - a token kept as it is (code
+    and meta tokens can only be kept), or a non-empty run of free gap tokens (whitespace, newline,
+    comment tokens invisible to the graph, [gap_ok_b]: no first-token hint, typed parser or node kind
+    mentions them) replaced by another non-empty run of free gap tokens whose last token is
+    whitespace/newline iff the original's is.  [Rb bs]: corresponding positions (block boundaries).  For every graph with
     [static_ok_b g U] (bracket ends are single tokens; every option handed to [longest_match]
     returns matches that start where it was asked), every fuel, all regex oracle tables that agree
-    on kept tokens and reject gap tokens: the same outcome and, on success, match trees that agree
+    on kept tokens and reject free gap tokens: the same outcome and, on success, match trees that agree
     node for node with corresponding span ends and insert positions. *)
 From Coq Require FMapPositive.
 From Sq Require Pem.Model Pem.LayoutRel Pem.LayoutSim Pem.LayoutInv Pem.LayoutEx.
 
 Theorem C11_layout_simulation : forall g U bs rx rx',
-  Pem.LayoutRel.static_ok_b g U = true -> Forall (Pem.LayoutInv.blk_ok g) bs -> Pem.LayoutInv.rx_compat bs rx rx' ->
+  Pem.LayoutRel.static_ok_b g U = true -> Forall (Pem.LayoutInv.blk_ok g) bs -> Pem.LayoutInv.rx_compat g bs rx rx' ->
   forall fuel s s' e e', Pem.LayoutInv.Rb bs s s' -> Pem.LayoutInv.Rb bs e e' ->
   Pem.LayoutSim.res_sim (Pem.LayoutSim.mr_sim (Pem.LayoutInv.Rb bs))
     (Pem.Model.parse_root g (Pem.Model.toks_of_list (Pem.LayoutInv.lleft bs)) rx fuel s e)
@@ -160,7 +160,7 @@ Print Assumptions C11_layout_simulation.
     of the first list without unparsable sections, it matches the code span of the second list,
     again without unparsable sections, with the same code view (node kinds over code-token ranks). *)
 Theorem C11_layout_invariant : forall g bs rx rx' fuel m,
-  Pem.LayoutRel.gap_safe_b g = true -> Forall (Pem.LayoutInv.blk_ok g) bs -> Pem.LayoutInv.rx_compat bs rx rx' ->
+  Pem.LayoutRel.gap_safe_b g = true -> Forall (Pem.LayoutInv.blk_ok g) bs -> Pem.LayoutInv.rx_compat g bs rx rx' ->
   Pem.Model.parse_root g (Pem.Model.toks_of_list (Pem.LayoutInv.lleft bs)) rx fuel
     (Pem.LayoutInv.cstart (Pem.LayoutInv.lleft bs)) (Pem.LayoutInv.cend (Pem.LayoutInv.lleft bs)) = Pem.Model.ROk m ->
   Pem.LayoutInv.clean_b g m = true ->
@@ -173,11 +173,11 @@ Proof. exact Pem.LayoutInv.pem_layout_invariant. Qed.
 Print Assumptions C11_layout_invariant.
 
 (** The same on plain token lists, with the alignment decided by [layout_related_b] and the regex
-    parsers as an arbitrary oracle (a function of the regex and the token) that rejects gap tokens. *)
+    parsers as an arbitrary oracle (a function of the regex and the token) that rejects free gap tokens. *)
 Theorem C11_layout_invariant_lists : forall g l l' orx rx rx' fuel m,
   Pem.LayoutRel.gap_safe_b g = true -> Pem.LayoutInv.layout_related_b g l l' = true ->
   Pem.LayoutInv.rx_records orx l rx -> Pem.LayoutInv.rx_records orx l' rx' ->
-  (forall rid t, Pem.LayoutRel.gapb t = true -> In t l \/ In t l' -> orx rid t = false) ->
+  (forall rid t, Pem.LayoutRel.okgap g t -> In t l \/ In t l' -> orx rid t = false) ->
   Pem.Model.parse_root g (Pem.Model.toks_of_list l) rx fuel (Pem.LayoutInv.cstart l) (Pem.LayoutInv.cend l) = Pem.Model.ROk m ->
   Pem.LayoutInv.clean_b g m = true ->
   exists m',
@@ -189,7 +189,7 @@ Print Assumptions C11_layout_invariant_lists.
 (** Whatever the outcome, it is the same on both lists: success (same cleanliness, same code view),
     parse error, the same abort, or out of fuel. *)
 Theorem C11_layout_same_outcome : forall g bs rx rx' fuel s s' e e',
-  Pem.LayoutRel.gap_safe_b g = true -> Forall (Pem.LayoutInv.blk_ok g) bs -> Pem.LayoutInv.rx_compat bs rx rx' ->
+  Pem.LayoutRel.gap_safe_b g = true -> Forall (Pem.LayoutInv.blk_ok g) bs -> Pem.LayoutInv.rx_compat g bs rx rx' ->
   Pem.LayoutInv.Rb bs s s' -> Pem.LayoutInv.Rb bs e e' ->
   match Pem.Model.parse_root g (Pem.Model.toks_of_list (Pem.LayoutInv.lleft bs)) rx fuel s e,
         Pem.Model.parse_root g (Pem.Model.toks_of_list (Pem.LayoutInv.lright bs)) rx' fuel s' e' with
